@@ -11,6 +11,7 @@ package interp
 
 import (
 	"bytes"
+	"encoding/base64"
 	"encoding/json"
 	"fmt"
 	"go/types"
@@ -219,7 +220,11 @@ func (i *interpreter) jsonEncode(t types.Type, v value, depth int) *jnode {
 			return &jnode{k: jNull}
 		}
 		if eb, ok := tt.Elem().Underlying().(*types.Basic); ok && eb.Kind() == types.Byte {
-			panic(unsupported{"json: []byte encodes as base64 (not modelled)"})
+			raw, conc := concBytes(sv)
+			if !conc {
+				panic(unsupported{"json: base64 of symbolic []byte"})
+			}
+			return &jnode{k: jStr, v: base64.StdEncoding.EncodeToString(raw)}
 		}
 		n := &jnode{k: jArr}
 		for _, e := range sv {
@@ -668,7 +673,16 @@ func (i *interpreter) jsonDecode(n *jnode, t types.Type, addr *value, depth int)
 			return first
 		case jStr:
 			if eb, ok := tt.Elem().Underlying().(*types.Basic); ok && eb.Kind() == types.Byte {
-				panic(unsupported{"json: base64 []byte"})
+				txt, ok := n.v.(string)
+				if !ok {
+					panic(unsupported{"json: base64 of symbolic text"})
+				}
+				raw, err := base64.StdEncoding.DecodeString(txt)
+				if err != nil {
+					return "illegal base64 data at input byte 0"
+				}
+				*addr = bytesVal(raw)
+				return ""
 			}
 		}
 		return "json: cannot unmarshal " + kindName(n.k) + " into Go value of type " + t.String()
